@@ -91,7 +91,12 @@ pub fn check(c: &Case) -> Verdict {
         let mut file: Vec<u8> = vec![0x5a; (junk * PAGE) as usize];
         file.extend_from_slice(&image);
         file.resize(((junk + content_pages) * PAGE) as usize, 0);
-        let pads: Vec<u8> = if junk > 0 { vec![] } else { im.pad_perms.iter().take(3).cloned().collect() };
+        // a third of the plain, still existing multi-page images have only their FIRST page mapped (what a
+        // loader maps is the PT_LOAD content, not the section table at the end of the file): whatever of
+        // build id and SONAME is not reachable through that page must come from the file itself
+        let head_only = !im.unlink && junk == 0 && !im.non_elf && content_pages > 1 && (im.name as u64 + im.first_perms as u64) % 3 == 0;
+        let mapped_pages = if head_only { 1 } else { content_pages };
+        let pads: Vec<u8> = if junk > 0 || head_only { vec![] } else { im.pad_perms.iter().take(3).cloned().collect() };
         file.resize(((junk + content_pages + pads.len() as u64) * PAGE) as usize, 0);
         b.spec.files.push((path.clone(), file));
         let base = b.next_map_addr();
@@ -99,10 +104,10 @@ pub fn check(c: &Case) -> Verdict {
         let mut at = base;
         let mut off = junk;
         let mut exec_seen = first_perms & 4 != 0;
-        b.add_file_map_at(at, content_pages, first_perms, &path, off, false);
-        at += content_pages * PAGE;
-        off += content_pages;
-        let mut size = content_pages * PAGE;
+        b.add_file_map_at(at, mapped_pages, first_perms, &path, off, false);
+        at += mapped_pages * PAGE;
+        off += mapped_pages;
+        let mut size = mapped_pages * PAGE;
         let n_parts = 1 + pads.len();
         let gap_k = im.gap_after.map(|k| k as usize % n_parts);
         for part in 0..n_parts {
@@ -367,7 +372,7 @@ pub fn run(ctx: &mut LaneCtx) {
         SubSpec {
             name: "live-modules",
             cases: (1_440, 25_000),
-            rule: "1..6 synthetic ELF images per target (ELF kit: with/without build-id note via PT_NOTE or section, id lengths 0..64 incl. all-zero, with/without SONAME via PT_DYNAMIC/SHT_DYNAMIC, with/without section table, 64/32 bit, LE/BE) in files named with spaces / non-ASCII (also characters outside the Basic Multilingual Plane) / .so.N versions, mapped loader-style in 1..4 parts of differing permissions with optional PROT_NONE gap, or 'APK style' from a non-zero offset, some unlinked after mapping, some non-ELF; direct auxv entry address inside a synthetic module, kernel auxv, or caller-supplied true values of which any subset is left zero (unset); 0..3 user mappings containing / partially overlapping / disjoint; in a third of the cases the judged image is the second request (or the retry after a failed one) of the same writer; oracle in assumptions; non-trivial = >=2 images with different feature sets or a user mapping that suppresses a module; distinct = hash of case",
+            rule: "1..6 synthetic ELF images per target (ELF kit: with/without build-id note via PT_NOTE or section, id lengths 0..64 incl. all-zero, with/without SONAME via PT_DYNAMIC/SHT_DYNAMIC, with/without section table, 64/32 bit, LE/BE) in files named with spaces / non-ASCII (also characters outside the Basic Multilingual Plane) / .so.N versions, mapped loader-style in 1..4 parts of differing permissions with optional PROT_NONE gap, or 'APK style' from a non-zero offset, some unlinked after mapping, some non-ELF, some with only their first page mapped (section table not in memory: id / SONAME must then come from the file); direct auxv entry address inside a synthetic module, kernel auxv, or caller-supplied true values of which any subset is left zero (unset); 0..3 user mappings containing / partially overlapping / disjoint; in a third of the cases the judged image is the second request (or the retry after a failed one) of the same writer; oracle in assumptions; non-trivial = >=2 images with different feature sets or a user mapping that suppresses a module; distinct = hash of case",
             strategy: case_strategy().boxed(),
             max_shrink_iters: 150,
             log_current: true,
